@@ -9,6 +9,7 @@ from .events import (
     UserDirectoryEvent,
     UserSharesReplyEvent,
 )
+from .protocol.primitives import DirectoryData
 from .protocol.messages import (
     PeerDirectoryContentsRequest,
     PeerDirectoryContentsReply,
@@ -115,6 +116,18 @@ class PeerManager(BaseManager):
             return
 
         directories = self._shares_manager.create_directory_reply(message.directory)
+
+        # This reply has no section for locked files. The files of a directory
+        # are all part of the same shared directory: if one of them is locked
+        # for the requesting user none of them should be listed
+        directories = [
+            DirectoryData(name=directory.name, files=[])
+            if directory.files and not self._shares_manager.find_shared_item_cache(
+                f"{directory.name}\\{directory.files[0].filename}", connection.username)
+            else directory
+            for directory in directories
+        ]
+
         await connection.send_message(
             PeerDirectoryContentsReply.Request(
                 ticket=message.ticket,
